@@ -217,7 +217,7 @@ theorem only_matching_multiline_records (sc : SCfg) (c : StdCfg) (s : Sunk) (hne
 
 /-- the matches every printer records for a range are sorted, disjoint and well-formed (sane matcher) -/
 theorem recorded_matches_sorted (sc : SCfg) (find : Oracle) (bytes : Bytes) (rs re : Nat)
-    (hs : Sane (find (cutHaystack sc bytes re)) (cutHaystack sc bytes re).length) :
+    (hs : Sane (find (shownHay sc bytes rs re)) (shownHay sc bytes rs re).length) :
     Sorted (shiftSpans rs (findIterInContext sc find bytes rs re)) :=
   findIterInContext_sorted sc find bytes rs re hs
 
@@ -232,80 +232,31 @@ example :
 
 /-! ## every matched line has a submatch -/
 
-/-- **matched_has_submatch**: if, on the haystack the printers show it, the matcher finds a match that starts
-inside the reported range (or exactly at the end of a final line without terminator), then the printers' match
-list for that range is not empty. -/
+/-- **matched_has_submatch**: if, on the haystack the printers show it (multi-line: the buffer cut after the
+look-ahead, searched from the start of the range; line-oriented: the line's own content, searched from 0), the
+matcher finds a match — in multi-line mode one that starts inside the reported range, or exactly at the end of a
+final line without terminator — then the printers' match list for that range is not empty. -/
 theorem matched_has_submatch (sc : SCfg) (find : Oracle) (buf : Bytes) (rs re : Nat) (m : Span)
-    (hrs : rs ≤ (cutHaystack sc buf re).length)
-    (hf : find (cutHaystack sc buf re) rs = some m)
-    (hin : m.s < re ∨ (isAtUnterminatedEnd sc.lt (cutHaystack sc buf re) rs re = true ∧ m.s = re)) :
+    (hrs : shownFrom sc rs ≤ (shownHay sc buf rs re).length)
+    (hf : find (shownHay sc buf rs re) (shownFrom sc rs) = some m)
+    (hin : sc.multiLine = true →
+      (m.s < re ∨ (isAtUnterminatedEnd sc.lt (cutHaystack sc buf re) rs re = true ∧ m.s = re))) :
     findIterInContext sc find buf rs re ≠ [] := by
   obtain ⟨t, ht⟩ := findIterInContext_head sc find buf rs re m hrs hf hin
   rw [ht]
   simp
 
-/-- The guard-free form the property asks for, in single-line mode: a reported line `[rs, re)` of the buffer
-in which a sane matcher finds *some* match from the start of the line has at least one submatch. (The case
-`m.start = re` is the empty match at the end of a final line without terminator — finding F6, repaired.) -/
+/-- The guard-free form the property asks for, in single-line mode (since 0cdcce3 the printers search a line on
+its own): a reported line in whose own content (terminator removed) the matcher finds *some* match from the first
+byte has at least one submatch — whatever the match, also the empty one at the very end (finding F6, repaired). -/
 theorem matched_has_submatch_single_line (sc : SCfg) (find : Oracle) (buf : Bytes) (rs re : Nat) (m : Span)
-    (hml : sc.multiLine = false) (hrs : rs ≤ re) (hre : re ≤ buf.length)
-    (hrs' : rs ≤ (cutHaystack sc buf re).length)
-    (hs : Sane (find (cutHaystack sc buf re)) (cutHaystack sc buf re).length)
-    (hf : find (cutHaystack sc buf re) rs = some m) :
+    (hml : sc.multiLine = false)
+    (hf : find (lineHaystack sc.lt buf rs re) 0 = some m) :
     findIterInContext sc find buf rs re ≠ [] := by
-  apply matched_has_submatch sc find buf rs re m hrs' hf
-  have hle := hs.le rs m hf
-  have hb := hs.bound rs m hf
-  have hcut := cutHaystack_single_le sc hml buf re
-  by_cases hlt : m.s < re
-  · exact Or.inl hlt
-  · right
-    have hms : m.s = re := by omega
-    have hlen : (cutHaystack sc buf re).length = re := by omega
-    refine ⟨?_, hms⟩
-    -- the haystack was not shortened, so the range has no terminator
-    have htrim : trimLineTerminator sc.lt buf 0 re = re := by
-      have : (cutHaystack sc buf re).length = min (trimLineTerminator sc.lt buf 0 re) buf.length := by
-        simp [cutHaystack, hml, List.length_take]
-      have h1 : trimLineTerminator sc.lt buf 0 re ≤ re := by
-        unfold trimLineTerminator
-        split
-        · simp only; split <;> omega
-        · exact Nat.le_refl _
-      omega
-    have hnot : sc.lt.isSuffix ((buf.take re).drop 0) = false := by
-      cases hsuf : sc.lt.isSuffix ((buf.take re).drop 0) with
-      | false => rfl
-      | true =>
-        exfalso
-        unfold trimLineTerminator at htrim
-        simp only [hsuf, ↓reduceIte] at htrim
-        have hpos : 0 < re := by
-          cases re with
-          | zero => simp [LineTerm.isSuffix] at hsuf
-          | succ n => omega
-        split at htrim <;> omega
-    have hcuteq : cutHaystack sc buf re = buf.take re := by
-      simp [cutHaystack, hml, htrim]
-    unfold isAtUnterminatedEnd
-    rw [hcuteq]
-    have hl : (buf.take re).length = re := by simp [List.length_take, Nat.min_eq_left hre]
-    simp only [hl, beq_self_eq_true, hrs, decide_true, Bool.and_self, Bool.true_and, Bool.not_eq_eq_eq_not,
-      Bool.not_true]
-    -- the last byte of the range is the last byte of the prefix
-    unfold LineTerm.isSuffix at hnot ⊢
-    unfold slice
-    by_cases hrr : rs = re
-    · subst hrr
-      simp [List.take_take, hl]
-    · have hlt' : rs < re := by omega
-      simp only [List.drop_zero] at hnot
-      have hlast : (((buf.take re).take re).drop rs).getLast? = (buf.take re).getLast? := by
-        rw [List.take_take, Nat.min_self, List.getLast?_drop]
-        simp [hl]
-        omega
-      rw [hlast]
-      exact hnot
+  have hsh : shownHay sc buf rs re = lineHaystack sc.lt buf rs re := by simp [shownHay, hml]
+  have hfr : shownFrom sc rs = 0 := by simp [shownFrom, hml]
+  exact matched_has_submatch sc find buf rs re m (by rw [hfr]; omega) (by rw [hsh, hfr]; exact hf)
+    (by intro h; rw [hml] at h; cases h)
 
 /-- non-vacuity: the F6 witness — `$` on the single unterminated line `abc` — satisfies the hypotheses -/
 example :
